@@ -695,11 +695,21 @@ pub fn check_formula(text: &str, via_cli: bool) -> Check {
                 let g = dot::parse(&d).map_err(|e| v(format!("-d file: {}", e)))?;
                 let labels = g.well_formed().map_err(|e| v(format!("-d file: {}", e)))?;
                 let glv = if f == 'a' { leaves(&g, &labels) } else { leaves_filtered(&g) }.map_err(|e| v(format!("-d file: {}", e)))?;
-                let tests = g.nodes.len() - usize::from(glv.t.is_some()) - usize::from(glv.f.is_some());
-                let sh = plain::invariants(&r);
-                if tests != sh.distinct_tests {
-                    return Err(v(format!("-d file declares {} test nodes, expected {}", tests, sh.distinct_tests)));
+                // "each distinct node exactly once", judged on the file itself (which variable order the
+                // solver uses without an ordering file is its own choice, so the in-process diagram is
+                // not the yardstick): no two declared test nodes with the same label and the same children
+                let mut triples: HashSet<(String, Vec<(String, String)>)> = HashSet::new();
+                for (id, label) in &g.nodes {
+                    if Some(id) == glv.t.as_ref() || Some(id) == glv.f.as_ref() {
+                        continue;
+                    }
+                    let mut outs: Vec<(String, String)> = g.out_edges(id).into_iter().map(|(l, b)| (l.to_string(), b.to_string())).collect();
+                    outs.sort();
+                    if !triples.insert((label.clone(), outs)) {
+                        return Err(v(format!("-d file declares two test nodes `{}` with the same children", label)));
+                    }
                 }
+
                 if (f == 't' && glv.f.is_some()) || (f == 'f' && glv.t.is_some()) {
                     return Err(v(format!("-d -f {} still declares the opposite leaf", flag)));
                 }
